@@ -3,6 +3,7 @@ package core
 import (
 	"fmt"
 	"go/token"
+	"sort"
 
 	"golang.org/x/tools/go/ssa"
 )
@@ -223,8 +224,10 @@ func OncePerIteration(l *Loop, in ssa.Instruction) bool {
 	return true
 }
 
-// CountedLoopBound recognises `for i := 0; i < n; i++ { ... op ... }` around op, where op runs exactly
-// once per iteration and nothing leaves the loop early; it returns n.  why explains a failure.
+// CountedLoopBound recognises the counted loops that run exactly n times for a loop-invariant n -
+// `for i := 0; i < n; i++`, `for i := 1; i <= n; i++`, `for r := n; r > 0; r--`, `for r := n; r >= 1; r--`
+// (and the mirrored comparisons) - around op, where op runs exactly once per iteration and nothing leaves
+// the loop early; it returns n.  why explains a failure.
 func (p *Prog) CountedLoopBound(op ssa.Instruction) (bound ssa.Value, why string) {
 	l := InnermostLoop(op)
 	if l == nil {
@@ -235,39 +238,72 @@ func (p *Prog) CountedLoopBound(op ssa.Instruction) (bound ssa.Value, why string
 		return nil, "the enclosing loop is not a counted loop (header test kind: " + kind + ")"
 	}
 	cmp := iff.Cond.(*ssa.BinOp)
+	// normalise to  idx OP other
 	var idx *ssa.Phi
-	switch cmp.Op {
-	case token.LSS:
-		idx, _ = cmp.X.(*ssa.Phi)
-		bound = cmp.Y
-	case token.GTR:
-		idx, _ = cmp.Y.(*ssa.Phi)
-		bound = cmp.X
-	default:
-		return nil, "loop condition is not a strict `i < n` comparison (" + cmp.Op.String() + ")"
+	var other ssa.Value
+	opTok := cmp.Op
+	if ph, ok := cmp.X.(*ssa.Phi); ok && ph.Block() == l.Header {
+		idx, other = ph, cmp.Y
+	} else if ph, ok := cmp.Y.(*ssa.Phi); ok && ph.Block() == l.Header {
+		idx, other = ph, cmp.X
+		switch opTok {
+		case token.LSS:
+			opTok = token.GTR
+		case token.GTR:
+			opTok = token.LSS
+		case token.LEQ:
+			opTok = token.GEQ
+		case token.GEQ:
+			opTok = token.LEQ
+		}
 	}
-	if idx == nil || idx.Block() != l.Header {
+	if idx == nil {
 		return nil, "loop index is not a header phi"
 	}
-	// the true branch must enter the loop
 	if !l.Blocks[l.Header.Succs[0]] || l.Blocks[l.Header.Succs[1]] {
-		return nil, "the `i < n` true edge does not enter the loop body"
+		return nil, "the true edge of the loop test does not enter the loop body"
 	}
+	var init ssa.Value
+	step := int64(0)
 	for i, e := range idx.Edges {
 		pred := l.Header.Preds[i]
 		if l.Blocks[pred] {
 			inc, ok := e.(*ssa.BinOp)
-			if !ok || inc.Op != token.ADD || inc.X != ssa.Value(idx) {
-				return nil, "loop index is not incremented by one per iteration"
+			if !ok || inc.X != ssa.Value(idx) {
+				return nil, "loop index is not stepped by a constant"
 			}
-			if k, ok := inc.Y.(*ssa.Const); !ok || k.Int64() != 1 {
-				return nil, "loop index step is not 1"
+			k, ok := inc.Y.(*ssa.Const)
+			if !ok || k.Value == nil {
+				return nil, "loop index step is not a constant"
+			}
+			switch inc.Op {
+			case token.ADD:
+				step = k.Int64()
+			case token.SUB:
+				step = -k.Int64()
+			default:
+				return nil, "loop index is not stepped by +1/-1"
 			}
 		} else {
-			if k, ok := e.(*ssa.Const); !ok || k.Value == nil || k.Int64() != 0 {
-				return nil, "loop index does not start at 0"
-			}
+			init = e
 		}
+	}
+	constOf := func(v ssa.Value) (int64, bool) {
+		k, ok := v.(*ssa.Const)
+		if !ok || k.Value == nil {
+			return 0, false
+		}
+		return k.Int64(), true
+	}
+	ic, initConst := constOf(init)
+	oc, otherConst := constOf(other)
+	switch {
+	case step == 1 && initConst && !otherConst && ((opTok == token.LSS && ic == 0) || (opTok == token.LEQ && ic == 1)):
+		bound = other
+	case step == -1 && !initConst && otherConst && ((opTok == token.GTR && oc == 0) || (opTok == token.GEQ && oc == 1)):
+		bound = init
+	default:
+		return nil, "the loop does not run exactly n times for a loop-invariant n (init/step/test not one of the recognised counted forms)"
 	}
 	if bi, ok := bound.(ssa.Instruction); ok && l.Blocks[bi.Block()] {
 		return nil, "loop bound is recomputed inside the loop"
@@ -279,6 +315,135 @@ func (p *Prog) CountedLoopBound(op ssa.Instruction) (bound ssa.Value, why string
 		return nil, "the operation is not executed on every iteration"
 	}
 	return bound, ""
+}
+
+// ----------------------------------------------------------------------------
+// Loops along the calling-context chain of the expanded CFG: an action that was
+// extracted into a helper is still "inside" the loop that calls the helper.
+// ----------------------------------------------------------------------------
+
+type LoopAt struct {
+	L  *Loop
+	At *Node // the node, in the loop's own function context, that is the action or the call (chain) containing it
+}
+
+// EnclLoops lists the loops around n, nearest first: the loops of n's own function around n, then the loops
+// around the call site of n's function in its caller, and so on up to the root (callbacks of modelled
+// higher-order functions and deferred calls end the chain at their call site's function like ordinary calls).
+func (g *XG) EnclLoops(n *Node) []LoopAt {
+	var out []LoopAt
+	for x := n; x != nil; x = x.Ctx.CallNode {
+		if x.Instr != nil {
+			for _, l := range LoopsOf(x.Instr) {
+				out = append(out, LoopAt{l, x})
+			}
+		}
+		if x.Ctx.Parent == nil {
+			break
+		}
+	}
+	return out
+}
+
+// NodeOf returns the expanded-CFG node of instruction in within context c (nil if pruned).
+func (g *XG) NodeOf(c *Ctx, in ssa.Instruction) *Node {
+	if g.byInstr == nil {
+		g.byInstr = map[instrKey]*Node{}
+		for _, n := range g.Nodes {
+			if n.Instr != nil && (n.Kind == KInstr || n.Kind == KCall || n.Kind == KExit || n.Kind == KRet || n.Kind == KRootRet) && !n.Deferred {
+				k := instrKey{n.Ctx, n.Instr}
+				if _, dup := g.byInstr[k]; !dup {
+					g.byInstr[k] = n
+				}
+			}
+		}
+	}
+	return g.byInstr[instrKey{c, in}]
+}
+
+// FirstNodeOf returns the first node of block b in context c.
+func (g *XG) FirstNodeOf(c *Ctx, b *ssa.BasicBlock) *Node {
+	for _, in := range b.Instrs {
+		if _, isPhi := in.(*ssa.Phi); isPhi {
+			continue
+		}
+		if n := g.NodeOf(c, in); n != nil {
+			return n
+		}
+		// an inlined call has kind KCall and is registered; a pruned instruction ends the block
+	}
+	return nil
+}
+
+// LoopTest returns the node that computes the loop's continuation condition (the `ok` of a range step or the
+// index comparison) and the boolean value of that condition for which the loop body is entered.
+func (g *XG) LoopTest(la LoopAt) (test *Node, enter bool, ok bool) {
+	_, iff := HeaderTest(la.L)
+	if iff == nil {
+		return nil, false, false
+	}
+	ci, isInstr := iff.Cond.(ssa.Instruction)
+	if !isInstr {
+		return nil, false, false
+	}
+	h := la.L.Header
+	enter = la.L.Blocks[h.Succs[0]] && !(la.L.Blocks[h.Succs[1]] && h.Succs[1] != h)
+	if !la.L.Blocks[h.Succs[0]] && la.L.Blocks[h.Succs[1]] {
+		enter = false
+	}
+	n := g.NodeOf(la.At.Ctx, ci)
+	if n == nil {
+		return nil, false, false
+	}
+	return n, enter, true
+}
+
+// LoopExitNodes returns the nodes entered when the loop is left through its header test.
+func (g *XG) LoopExitNodes(la LoopAt) []*Node {
+	_, iff := HeaderTest(la.L)
+	if iff == nil {
+		return nil
+	}
+	ifn := g.NodeOf(la.At.Ctx, iff)
+	if ifn == nil || len(ifn.Succs) != 2 {
+		return nil
+	}
+	var out []*Node
+	for i, s := range iff.Block().Succs {
+		if !la.L.Blocks[s] {
+			out = append(out, ifn.Succs[i])
+		}
+	}
+	return out
+}
+
+// ExitEdge is an edge that leaves a loop from a block other than through the header test.
+type ExitEdge struct {
+	From, To *ssa.BasicBlock
+}
+
+// EarlyExitEdges lists the edges leaving loop l from its body (not the header's own test) that do not
+// structurally end in a never-returning call.
+func (p *Prog) EarlyExitEdges(l *Loop) []ExitEdge {
+	var out []ExitEdge
+	for b := range l.Blocks {
+		for _, s := range b.Succs {
+			if l.Blocks[s] || b == l.Header {
+				continue
+			}
+			if p.deadEnd(s, l) {
+				continue
+			}
+			out = append(out, ExitEdge{b, s})
+		}
+	}
+	sort.Slice(out, func(i, j int) bool {
+		if out[i].From.Index != out[j].From.Index {
+			return out[i].From.Index < out[j].From.Index
+		}
+		return out[i].To.Index < out[j].To.Index
+	})
+	return out
 }
 
 // ExitBlockOf returns the loops for which in's block is a direct exit target (entered from a loop
